@@ -128,7 +128,7 @@ pub fn class_bears_on(class: &str, property: &str) -> bool {
                 | "engine-exit"
                 | "non-termination"
         ),
-        "C08" => matches!(c, "depth-sequence" | "depth-exceeds-limit" | "pv-empty" | "pv-illegal" | "mate-length" | "mate-false" | "mate-zero" | "info-without-go"),
+        "C08" => matches!(c, "report-wrong-position" | "depth-sequence" | "depth-exceeds-limit" | "pv-empty" | "pv-illegal" | "mate-length" | "mate-false" | "mate-zero" | "info-without-go"),
         "C09" => matches!(
             c,
             "continued-after-stop" | "illegal-bestmove" | "illegal-ponder" | "game-mutated" | "panic" | "abort" | "followup-illegal-bestmove" | "followup-line" | "followup-panic" | "stop-late"
